@@ -315,8 +315,23 @@ def _run_chunk(cmds, env, timeout_per_case, exe=None):
         if len(got) < len(batch):
             # the command at `pos` killed (or hung) the worker
             how = "timeout" if timed_out else (f"signal {-rc}" if rc < 0 else f"exit {rc}")
-            results.append({"k": "crash", "how": how, "id": batch[len(got)].get("id"),
-                            "msg": err.decode("utf-8", "replace")[-400:]})
+            res = {"k": "crash", "how": how, "id": batch[len(got)].get("id"), "msg": err.decode("utf-8", "replace")[-400:]}
+            if timed_out:
+                # a busy machine is not a hang: the command gets a second run on its own with a generous limit
+                try:
+                    p = subprocess.run([exe or JRV], input=(json.dumps(batch[len(got)], ensure_ascii=False) + "\n").encode("utf-8"), env=env,
+                                       stdout=subprocess.PIPE, stderr=subprocess.PIPE, timeout=max(300, 20 * timeout_per_case))
+                    alone = [l for l in p.stdout.decode("utf-8", "replace").split("\n") if l.strip()]
+                    if alone:
+                        res = json.loads(alone[0])
+                    else:
+                        res = {"k": "crash", "how": f"signal {-p.returncode}" if p.returncode < 0 else f"exit {p.returncode}",
+                               "id": batch[len(got)].get("id"), "msg": p.stderr.decode("utf-8", "replace")[-400:]}
+                except subprocess.TimeoutExpired:
+                    pass
+                except Exception:
+                    pass
+            results.append(res)
             pos += 1
     return results
 
